@@ -136,6 +136,62 @@ def specs(tier):
     return st.one_of(cart_specs(tier), cart_specs(tier), cyl_specs(tier), periodic_noise_specs(tier))
 
 
+def many_components_spec(n_target, seed, periodic=(True, True)):
+    """A 2-D image with about `n_target` components (counts beyond what small grids can hold: block sizes, small integer
+    label types, chunked distance evaluations): isolated single cells on a sparse lattice plus motifs whose equal-volume spheres
+    overlap although the clusters do not touch (a ring around a single cell, parallel bars), placed anywhere - also across
+    the periodic faces and among the last labels."""
+    rng = np.random.default_rng([n_target, seed])
+    ncols = 2 * int(rng.integers(14, 24))
+    n_motifs = int(rng.integers(2, 7))
+    nrows = 2 * int(np.ceil((n_target + 60 * n_motifs) / (ncols // 2))) + 2 * int(rng.integers(0, 4))
+    shape = (nrows, ncols)
+    mask = np.zeros(shape, bool)
+    blocked = np.zeros(shape, bool)
+
+    def put(cells):
+        idx = []
+        for i, j in cells:
+            if not periodic[0] and not 0 <= i < nrows or not periodic[1] and not 0 <= j < ncols:
+                continue
+            idx.append((i % nrows, j % ncols))
+        for i, j in idx:
+            mask[i, j] = True
+        for i, j in idx:
+            for di in (-2, -1, 0, 1, 2):
+                for dj in (-2, -1, 0, 1, 2):
+                    ii, jj = i + di, j + dj
+                    if (periodic[0] or 0 <= ii < nrows) and (periodic[1] or 0 <= jj < ncols):
+                        blocked[ii % nrows, jj % ncols] = True
+
+    for m in range(n_motifs):
+        # the last motif sits in the last rows, so that its components carry the largest labels
+        i0 = int(rng.integers(0, nrows)) if m < n_motifs - 1 else nrows - 9 - int(rng.integers(0, 3))
+        j0 = int(rng.integers(0, ncols))
+        # keep motifs apart from each other
+        if blocked[np.ix_(np.arange(i0 - 1, i0 + 9) % nrows, np.arange(j0 - 1, j0 + 9) % ncols)].any():
+            continue
+        kind = int(rng.integers(0, 3))
+        if kind == 0:  # ring around a single cell
+            k = int(rng.integers(5, 8))
+            cells = [(i0 + a, j0 + b) for a in range(k) for b in range(k) if a in (0, k - 1) or b in (0, k - 1)] + [(i0 + k // 2, j0 + k // 2)]
+        elif kind == 1:  # a long bar and a short parallel one, one empty row apart
+            k = int(rng.integers(5, 9))
+            cells = [(i0, j0 + b) for b in range(k)] + [(i0 + 2, j0 + b) for b in range(1, 1 + int(rng.integers(1, k - 2)))]
+        else:  # U shape around a single cell
+            k = int(rng.integers(5, 8))
+            cells = [(i0 + a, j0 + b) for a in range(k) for b in range(k) if a == 0 or b in (0, k - 1)] + [(i0 + k // 2, j0 + k // 2)]
+        put(cells)
+    have = len(O.components(mask, periodic))
+    sites = [(i, j) for i in range(0, nrows - 1, 2) for j in range(0, ncols - 1, 2) if not blocked[i, j]]
+    order = rng.permutation(len(sites))
+    for k in order[: max(0, n_target - have)]:
+        mask[sites[k]] = True
+    spacing = [gen.r6(float(rng.uniform(0.3, 3))), gen.r6(float(rng.uniform(0.3, 3)))]
+    g = {"origin": [gen.r6(float(rng.uniform(-5, 5))), 0.0], "shape": [nrows, ncols], "spacing": spacing, "periodic": list(periodic)}
+    return {"family": "cart", "grid": g, "bits": gen.mask_to_bits(mask), "via": "mask"}
+
+
 # exhaustive domains: (name, kind, shape) ------------------------------------------------
 SPACINGS = [[1.0, 0.5, 2.0], [0.3, 0.7, 0.45]]
 ORIGINS = [[-1.0, 0.25, 3.0], [0.0, 0.0, 0.0]]
@@ -184,6 +240,12 @@ class C02(Property):
             total = 2**16
             for lo in range(0, total, total // 32):
                 jobs.append({"domain": "cart-4x4-fully-periodic", "family": "cart", "shape": [4, 4], "periodic": [True, True], "variant": 0, "lo": lo, "hi": lo + total // 32})
+        # images with many components (a count ladder around the powers of two: block sizes, label types, chunked evaluations)
+        ladder = [33, 70, 129, 257, 300, 404, 530] if tier == "quick" else [33, 70, 129, 257, 300, 404, 530, 770, 1025, 1100, 2060]
+        for n in ladder:
+            for per in ([True, True], [True, False], [False, False]):
+                for seed in range(1 if n > 300 else 2):
+                    jobs.append({"domain": "cart-many-components", "family": "many", "n": n, "periodic": per, "seed": seed})
         cyl = [(2, 4), (3, 3), (2, 5)] if tier == "quick" else [(2, 4), (3, 3), (2, 6), (3, 5), (4, 4)]
         for shape in cyl:
             n = shape[0] * shape[1]
@@ -202,6 +264,9 @@ class C02(Property):
         return jobs
 
     def expand(self, job):
+        if job["family"] == "many":
+            yield many_components_spec(job["n"], job["seed"], tuple(job["periodic"]))
+            return
         if job["family"] == "cyl-winding":
             nr, nz = job["shape"]
             g = {"nr": nr, "nz": nz, "dr": 0.5, "dz": 0.8, "z0": -1.3, "periodic_z": True}
@@ -311,6 +376,8 @@ class C02(Property):
         ncomp = len(orc)
         nwind = sum(1 for o in orc if o[2])
         ctx.cls(f"cart{nd}d", f"per{sum(geom.periodic)}", f"comps:{min(ncomp, 4)}{'+' if ncomp > 4 else ''}", f"via:{spec.get('via')}")
+        if ncomp > 32:
+            ctx.cls("comps>" + str(max(t for t in (32, 64, 128, 256, 512, 1024, 2048) if ncomp > t)))
         if nwind:
             ctx.cls("winding")
         if touches:
@@ -325,13 +392,17 @@ class C02(Property):
         pos = [np.asarray(d.position, float) for d in res]
         rad = [float(d.radius) for d in res]
         vol = [float(d.volume) for d in res]
+        oV = np.array([o[0] for o in orc])
+        oC = np.array([o[1] for o in orc])
+        oW = np.array([o[2] for o in orc], bool)
+        oR = np.array([o[3] for o in orc])
         adj = []
         for p, v in zip(pos, vol):
-            cand = []
-            for j, (V, c, w, _r) in enumerate(orc):
-                if abs(v - V) <= 1e-9 * V and (w or np.abs(geom.min_image(p - c)).max() <= tol):
-                    cand.append(j)
-            adj.append(cand)
+            if not (np.shape(p) == (nd,) and np.all(np.isfinite(p)) and np.isfinite(v)):
+                adj.append([])
+                continue
+            near = oW | (np.abs(geom.min_image(p - oC)).max(axis=1) <= tol)
+            adj.append([int(j) for j in np.flatnonzero((np.abs(v - oV) <= 1e-9 * oV) & near)])
         ml = _match(adj, ncomp)
         used = {j for j in ml if j >= 0}
         if any(j < 0 for j in ml):
@@ -344,24 +415,20 @@ class C02(Property):
             else:
                 ctx.fail("cart:position", f"droplet V={vol[i]:.6g} at {pos[i]}; components with that volume at {[orc[j][1].tolist() for j in volm]}")
         # (2) no sphere overlap among returned droplets
-        for i in range(len(pos)):
-            for j in range(i + 1, len(pos)):
-                dd = float(np.linalg.norm(geom.min_image(pos[i] - pos[j])))
-                if dd < rad[i] + rad[j] - tol:
-                    ctx.fail("cart:overlap", f"returned droplets {i},{j} overlap: dist {dd:.6g} < {rad[i] + rad[j]:.6g}")
+        if len(pos) >= 2 and all(np.shape(p) == (nd,) for p in pos):
+            P, R = np.array(pos), np.array(rad)
+            for i in range(len(pos) - 1):
+                dd = np.linalg.norm(geom.min_image(P[i] - P[i + 1 :]), axis=1)
+                for j in np.flatnonzero(~(dd >= R[i] + R[i + 1 :] - tol))[:3]:
+                    ctx.fail("cart:overlap", f"returned droplets {i},{i + 1 + int(j)} overlap: dist {dd[j]:.6g} < {R[i] + R[i + 1 + j]:.6g}")
         # (3) omitted components must be justified
         if all(j >= 0 for j in ml):
             for i, (V, c, w, r) in enumerate(orc):
                 if i in used:
                     continue
-                ok = False
-                for j, (V2, c2, w2, r2) in enumerate(orc):
-                    if j == i or V2 < V * (1 - 1e-9):
-                        continue
-                    if w or w2:
-                        ok = True
-                    elif float(np.linalg.norm(geom.min_image(c - c2))) < r + r2 + tol:
-                        ok = True
+                big = oV >= V * (1 - 1e-9)
+                big[i] = False
+                ok = bool(np.any(big & (w | oW | (np.linalg.norm(geom.min_image(c - oC), axis=1) < r + oR + tol))))
                 if ok:
                     ctx.cls("omitted-by-overlap")
                 else:
